@@ -39,10 +39,11 @@ type vcAttr struct {
 	Time      bool     `json:"time"`
 	Frag      bool     `json:"frag"`
 	Age       int      `json:"age"`
-	About     string   `json:"about"` // administrative record: the catalogue bundle the status report is about ("" = some unknown bundle)
-	RKind     string   `json:"rkind"` // received | forwarded | delivered | deleted
-	Desc      bool     `json:"desc"`  // extension blocks on the wire in descending order of their numbers (a foreign node's choice)
-	Lsd       int      `json:"lsd"`   // > 0: the bundle carries DTLSR link-state data of node dtn://lsorigin/ with this timestamp
+	About     string   `json:"about"`   // administrative record: the catalogue bundle the status report is about ("" = some unknown bundle)
+	RKind     string   `json:"rkind"`   // received | forwarded | delivered | deleted
+	UnkMore   int      `json:"unkmore"` // number of further unsupported blocks (same flags) next to the first, at most 2
+	Desc      bool     `json:"desc"`    // extension blocks on the wire in descending order of their numbers (a foreign node's choice)
+	Lsd       int      `json:"lsd"`     // > 0: the bundle carries DTLSR link-state data of node dtn://lsorigin/ with this timestamp
 }
 
 func (a vcAttr) unkFlags() (has bool, flags bpv7.BlockControlFlags) {
@@ -523,6 +524,9 @@ func (w *vcWorld) build(name string) bpv7.Bundle {
 	}
 	if has, fl := a.unkFlags(); has {
 		add(fl, bpv7.NewGenericExtensionBlock([]byte{0xca, 0xfe}, 222))
+		for k := 0; k < a.UnkMore; k++ { // further unsupported blocks with the same flags, right behind the first
+			add(fl, bpv7.NewGenericExtensionBlock([]byte{0xbe, byte(k)}, uint64(223+k)))
+		}
 	}
 	if a.Copies > 0 {
 		add(0, bpv7.NewBinarySprayBlock(uint64(a.Copies)))
